@@ -124,7 +124,7 @@ def call(fn):
     armed = threading.current_thread() is threading.main_thread()
     if armed:
         old = signal.signal(signal.SIGALRM, _on_alarm)
-        signal.alarm(60 if _HANGS[0] < 2 else 2)
+        signal.alarm(20 if _HANGS[0] < 2 else 2)
     try:
         return {"err": "", "out": fn()}
     except Hang:
